@@ -139,8 +139,20 @@ def run(ctx, progs):
                     a = unref(c.args()[1])
                     if a[0] == 'agg' and len(a[3]) == 1 and unref(a[3][0])[0] == 'const':
                         seq.append((c.pos, unref(a[3][0])[1]))
-            order_ok = [v for _p, v in seq] == [8, 4, 2, 1] and all(parent.pos_dominates(seq[i][0], seq[i + 1][0]) or True for i in range(len(seq) - 1))
-            ctx.ob("R6.4.descending_widths", parent.key, order_ok, parent.where(), f"widths tried in order {[v for _p, v in seq]} (must be 8, 4, 2, 1)")
+            # every pass on EVERY path, in this order: each pass dominates the next one and the last one dominates every exit
+            # (a pass moved into an `else` / behind a target-width test would leave 4-byte transfers to two 2-byte accesses)
+            # the 8-byte pass may sit behind a test of the target's word size (`size_of::<usize>() > 4`) and nothing else
+            narrow = [(p_, v) for p_, v in seq if v <= 4]
+            chain_ok = all(parent.pos_dominates(narrow[i][0], narrow[i + 1][0]) for i in range(len(narrow) - 1))
+            for p_, v in seq:
+                if v > 4:
+                    guards = [r for r in parent.facts_at(p_) if not (r[0] == 'cmp' and any(is_call(unref(x), "size_of") for x in (r[2], r[3])) and
+                                                                      any(unref(x)[0] == 'const' for x in (r[2], r[3])))]
+                    chain_ok = chain_ok and not guards and bool(narrow) and narrow[0][0][0] in parent.reachable(p_[0]) and p_[0] not in parent.reachable(narrow[0][0][0])
+            exits_ok = bool(seq) and all(parent.node_dominates(seq[-1][0][0], x) for x in parent.exits())
+            order_ok = [v for _p, v in seq] == [8, 4, 2, 1] and chain_ok and exits_ok
+            ctx.ob("R6.4.descending_widths", parent.key, order_ok, parent.where(),
+                   f"widths tried in order {[v for _p, v in seq]} (must be 8, 4, 2, 1), each pass unconditional: dominates the next [{chain_ok}], the last dominates every exit [{exits_ok}]")
             rts = parent.return_terms()
             # R6.5 routing
             routers = [(b, c) for b in prog.bodies for c in b.calls() if c.target == parent.id]
